@@ -1,11 +1,16 @@
 """C03 (list handling of the Turtle family): TurtleSerializer.isValidList terminates on every finite graph - also on
 cyclic rdf:rest chains - and accepts exactly the well-formed lists.
 
-Graph view used here: first(n), rest(n) (0 = no value) and pcount(n) = number of (predicate, object) pairs of node n.
+Graph view used here: first(n), rest(n) (0 = no value), pcount(n) = number of (predicate, object) pairs of node n,
+nfirst(n) / nrest(n) = number of rdf:first / rdf:rest values, refs(n) = how often n occurs as an object, bnode(n).
 The rdf:rest chain from the argument is the ghost sequence  nth(0) = l, nth(k+1) = rest(nth(k));  R is its first stop
-index (chain ended, or a cell seen before).  R exists in every finite graph (pigeonhole) - assumed, not proved.
-   isValidList(l)  <=>  first(l) exists  and  the chain ends (nth(R) is None)  and
-                        every cell before R other than rdf:nil has exactly two (predicate, object) pairs
+index (rdf:nil reached, chain broken, or a cell seen before).  R exists in every finite graph (pigeonhole) - assumed.
+   isValidList(l)  <=>  first(l) exists  and  the chain reaches rdf:nil (nth(R) == rdf:nil)  and  every cell before R is a
+                        blank node with exactly one rdf:first, exactly one rdf:rest and no other property, and every
+                        cell after the head is referenced exactly once
+(the condition under which writing the chain as ( ... ) loses, renames or duplicates nothing - taken from the property,
+not from the code: the pre-fix code accepted any chain whose cells have two properties; see finding
+C03-turtle-malformed-lists-abbreviated)
 Termination: the loop index is bounded by R (variant R - i).  Ghost code: the iteration counter and the witness map
 of `seen` advance at `seen.add(l_)`.
 """
@@ -24,6 +29,10 @@ SER = TObj("TurtleSerializer")
 first_of = z3.Function("graph_value_rdf_first", z3.IntSort(), z3.IntSort())
 rest_of = z3.Function("graph_value_rdf_rest", z3.IntSort(), z3.IntSort())
 pcount = z3.Function("number_of_predicate_objects", z3.IntSort(), z3.IntSort())
+nfirst = z3.Function("number_of_rdf_first_values", z3.IntSort(), z3.IntSort())
+nrest = z3.Function("number_of_rdf_rest_values", z3.IntSort(), z3.IntSort())
+refs = z3.Function("times_referenced_as_object", z3.IntSort(), z3.IntSort())
+is_bnode = z3.Function("is_blank_node", z3.IntSort(), z3.BoolSort())
 nth = z3.Function("nth_cell_of_the_rest_chain", z3.IntSort(), z3.IntSort())
 NIL = z3.Int("rdf_nil")
 FIRSTP, RESTP = z3.Ints("rdf_first rdf_rest")
@@ -33,7 +42,12 @@ SEEN = TSet(NODE)
 
 def stop(k):
     j = z3.Int("stop_j")
-    return z3.Or(nth(k) == 0, z3.Exists([j], z3.And(0 <= j, j < k, nth(j) == nth(k))))
+    return z3.Or(nth(k) == 0, nth(k) == NIL, z3.Exists([j], z3.And(0 <= j, j < k, nth(j) == nth(k))))
+
+
+def cell_ok(n, k):
+    """what a cell at position k of the chain must look like for the ( ... ) form to be lossless"""
+    return z3.And(is_bnode(n), z3.Implies(k > 0, refs(n) == 1), pcount(n) == 2, nfirst(n) == 1, nrest(n) == 1)
 
 
 class ListModel(Model):
@@ -43,18 +57,24 @@ class ListModel(Model):
         super().__init__()
         self.relpath, self.cls = relpath, cls
         declare_class("Node", fields={})
-        declare_class(cls, fields={"store": TObj("Graph")})
-        declare_class("LongTurtleSerializer", fields={"store": TObj("Graph")})
+        declare_class("RefCounts", fields={})
+        declare_class(cls, fields={"store": TObj("Graph"), "_references": TObj("RefCounts")})
+        declare_class("LongTurtleSerializer", fields={"store": TObj("Graph"), "_references": TObj("RefCounts")})
         declare_class("Graph", fields={})
         g = self.globals
         g["RDF"] = ModuleNS("RDF", {"first": SV(INT, FIRSTP), "rest": SV(INT, RESTP), "nil": SV(NODE, NIL)})
         g["list"] = Builtin("list", lambda it, a, k: a[0])
         g["len"] = Builtin("len", self.b_len)
         g["set"] = Builtin("set", lambda it, a, k: it.path.new_ref(SEEN))
+        from pyvc.interp import ClassRef
+        g["BNode"] = ClassRef("BNode", isinstance_fn=lambda it, v: is_bnode(v.z))
         k = z3.Int("ax_k")
         self.axioms += [FIRSTP != RESTP, NIL > 0,
                         z3.ForAll([k], z3.Implies(k >= 0, nth(k + 1) == z3.If(nth(k) != 0, rest_of(nth(k)), 0))),
-                        z3.ForAll([k], z3.And(first_of(k) >= 0, rest_of(k) >= 0)),
+                        z3.ForAll([k], z3.And(first_of(k) >= 0, rest_of(k) >= 0, nfirst(k) >= 0, nrest(k) >= 0)),
+                        # Graph.value returns one of the objects, None iff there is none
+                        z3.ForAll([k], z3.And((first_of(k) == 0) == (nfirst(k) == 0), (rest_of(k) == 0) == (nrest(k) == 0))),
+                        z3.Not(is_bnode(NIL)),
                         # R is the first stop index of the chain (exists in a finite graph)
                         R >= 0, stop(R), z3.ForAll([k], z3.Implies(z3.And(0 <= k, k < R), z3.Not(stop(k))))]
         self.assumptions += ["finite graph: the rdf:rest chain from any node ends or revisits a cell after finitely many "
@@ -67,6 +87,8 @@ class ListModel(Model):
         v = a[0]
         if isinstance(v, tuple) and v and v[0] == "predicate_objects":
             return SV(INT, pcount(v[1]))
+        if isinstance(v, tuple) and v and v[0] == "objects":
+            return SV(INT, z3.If(v[2] == FIRSTP, nfirst(v[1]), nrest(v[1])))
         return super().b_len(it, a, k)
 
     def setup_path(self, path, interp, contract, selfv, args):
@@ -90,6 +112,18 @@ class ListModel(Model):
                 return BoundMethod(obj, name, value)
             if name == "predicate_objects":
                 return BoundMethod(obj, name, lambda it2, o, a, k: ("predicate_objects", it2.path.inject(ONODE, a[0])))
+            if name == "objects":
+                return BoundMethod(obj, name, lambda it2, o, a, k: ("objects", it2.path.inject(ONODE, a[0]), a[1].z))
+        return NotImplemented
+
+    def obj_isinstance(self, it, v, n):
+        if isinstance(v.ty, TObj) and v.ty.cls == "Node" and n == "BNode":
+            return is_bnode(v.z)
+        return NotImplemented
+
+    def getitem(self, it, obj, key, node):
+        if isinstance(obj, SV) and isinstance(obj.ty, TObj) and obj.ty.cls == "RefCounts":
+            return SV(INT, refs(it.path.inject(ONODE, key)))        # defaultdict(int): how often the node is an object
         return NotImplemented
 
     def call_method_hook(self, it, obj, name, args):
@@ -110,8 +144,10 @@ class ListModel(Model):
             x, j, k = z3.Ints("iv_x iv_j iv_k")
             # the implementation's set of visited cells: whichever local holds a set of nodes
             sets = [v for v in lc.env.values() if isinstance(v, SV) and v.ty == SEEN]
-            base = z3.And(0 <= i, i <= R, l == nth(i),
-                          z3.ForAll([k], z3.Implies(z3.And(0 <= k, k < i, nth(k) != NIL), pcount(nth(k)) == 2)))
+            heads = [v for n_, v in lc.env.items() if n_ == "head" and isinstance(v, SV)]
+            base = z3.And(0 <= i, i <= R, l == nth(i), l != 0,
+                          z3.ForAll([k], z3.Implies(z3.And(0 <= k, k < i), cell_ok(nth(k), k))),
+                          *[h.z == nth(0) for h in heads])
             if not sets:
                 return base          # no visited-set: termination then cannot be shown (variant)
             seen = p.content(sets[0])
@@ -122,8 +158,8 @@ class ListModel(Model):
         def valid(c):
             k = z3.Int("v_k")
             l0 = c.args["l_"].z
-            return z3.And(first_of(l0) != 0, nth(R) == 0,
-                          z3.ForAll([k], z3.Implies(z3.And(0 <= k, k < R, nth(k) != NIL), pcount(nth(k)) == 2)))
+            return z3.And(first_of(l0) != 0, nth(R) == NIL,
+                          z3.ForAll([k], z3.Implies(z3.And(0 <= k, k < R), cell_ok(nth(k), k))))
         for relpath, cls in ((self.relpath, self.cls), ("rdflib/plugins/serializers/longturtle.py", "LongTurtleSerializer")):
             self.add_one(relpath, cls, inv, valid)
 
@@ -134,8 +170,9 @@ class ListModel(Model):
                           modifies=[SEEN], allocates=True,
                           loops={0: LoopSpec(inv, modifies=[SEEN, "i", "w"], var_types={"l_": ONODE},
                                              variant=lambda lc: R - lc.path.ghost["i"])},
-                          note="isValidList terminates (variant R - i) and returns True exactly for a chain that ends, "
-                               "without revisiting a cell, whose cells carry nothing but rdf:first and rdf:rest"))
+                          note="isValidList terminates (variant R - i) and returns True exactly for a chain of blank-node "
+                               "cells, each with one rdf:first, one rdf:rest and nothing else, inner cells referenced "
+                               "once, that reaches rdf:nil without revisiting a cell"))
 
 
 def build():
